@@ -227,6 +227,13 @@ def explore(ctx):
                                 'sample_rate': sr, 'nsw': 5, 'fill': ctx.seed + (i % 3),
                                 'nonpositive_spikes': [3, 7] if i % 2 else [0]}
                         cases.append({'spec': spec, 'factors': [1, 2.5], 'unused': unused, 'how': how})
+    # get_depths works in batches of 50 000 spikes: two datasets just beyond one and two batches
+    for ns_big in ((50007, 100003) if ctx.thorough else (50007,)):
+        spec = {'n_spikes': ns_big, 'n_templates': 4, 'n_channels': 5, 'geometry': 'grid',
+                'whitening': 'mixing', 'features': 'sparse', 'tfeatures': 'absent', 'raw': False,
+                'sample_rate': 30000.0, 'nsw': 5, 'fill': ctx.seed,
+                'nonpositive_spikes': [3, 49999, 50000, ns_big - 1]}
+        cases.append({'spec': spec, 'factors': [2.5], 'unused': 'none', 'how': 'same'})
     ctx.run_cases(run_case, cases, sweep='summaries')
     ctx.bounds = {'unused_template_position': list(ASSIGN), 'curation': ['same', 'merge', 'split',
                                                                        'reassign'],
